@@ -49,7 +49,7 @@ pub fn instances(prop: &str, tier: &str, seed: u64) -> Vec<String> {
 
 pub fn configure(prop: &str, inst: &str, cfg: &mut Config) {
     // the "one rounding" clause is judged on the raw DAG: no algebraic simplification
-    if inst.starts_with("fp_arith") || inst.starts_with("fp_restore") { cfg.simplify = false; return; }
+    if inst.starts_with("fp_arith") || inst.starts_with("fp_restore") || inst.starts_with("fp_interp") || inst.starts_with("fp_space") { cfg.simplify = false; return; }
     match prop {
         "C13" => c13::configure(inst, cfg),
         "C10" => c10::configure(inst, cfg),
